@@ -78,6 +78,12 @@ func (f *Facts) key() string {
 	return strings.Join(parts, ";")
 }
 
+// Bools exposes the boolean facts (atom -> truth).
+func (f *Facts) Bools() map[*Term]bool { return f.b }
+
+// Dyn exposes the known dynamic types.
+func (f *Facts) Dyn() map[*Term]types.Type { return f.dyn }
+
 // List returns the facts in readable form (sorted).
 func (f *Facts) List() []string {
 	var parts []string
@@ -173,6 +179,9 @@ func certainlyNonNil(t *Term) bool {
 	switch t.K {
 	case KBox, KWrap, KFresh, KAlloc, KMake, KClosure, KFunc, KFieldAddr, KIndexAddr, KGlobal, KStruct, KArray:
 		return true
+	case KPure:
+		// reflect.TypeOf / Type() results used as interface values: TypeOf(nil) is nil, so not certain
+		return false
 	case KConst:
 		return true
 	case KSliceOf:
